@@ -6,3 +6,15 @@ Theorem C20_wf_run_holds : C20_wf_run. Proof. exact c20_wf_run. Qed.
 Print Assumptions C20_wf_run_holds.
 Theorem C20_obs_holds : C20_obs. Proof. exact c20_obs. Qed.
 Print Assumptions C20_obs_holds.
+(* first link of the chain: what the constructors accept is well-formed (Spec/StatementsInit.v) *)
+Require Import Boario.Spec.StatementsInit Boario.Proofs.C20InitProofs.
+Theorem C20_wf_create_holds : C20_wf_create. Proof. exact c20_wf_create. Qed.
+Print Assumptions C20_wf_create_holds.
+Theorem C20_wf_create_all_holds : C20_wf_create_all. Proof. exact c20_wf_create_all. Qed.
+Print Assumptions C20_wf_create_all_holds.
+Theorem C20_wf_init_holds : C20_wf_init. Proof. exact c20_wf_init. Qed.
+Print Assumptions C20_wf_init_holds.
+Theorem C20_builtin_rf_holds : C20_builtin_rf. Proof. exact c20_builtin_rf. Qed.
+Print Assumptions C20_builtin_rf_holds.
+Theorem C20_accepted_run_holds : C20_accepted_run. Proof. exact c20_accepted_run. Qed.
+Print Assumptions C20_accepted_run_holds.
